@@ -368,11 +368,55 @@ pub fn worker_main(args: &[String]) -> i32 {
                 recs
             }));
         }
+        // Manual mode, several committers: they can all end up waiting in the write stall (the
+        // memtable of a commit that found its arena full is rotated by the store itself), and in
+        // manual mode only committers flush. What the store's background flush task would do
+        // then is done here, and only then: a stall condition exists and nobody is flushing.
+        let relief_stop = std::sync::Arc::new(std::sync::atomic::AtomicBool::new(false));
+        let relief = if w.manual_flush_every > 0 && w.committers > 1 {
+            let (t, stop, bg_failed) = (tree.clone(), relief_stop.clone(), bg_failed.clone());
+            let (mem_stall, l0_stall) = (cfg.memtable_stall, cfg.l0_stall.max(cfg.l0_max_files));
+            let h = tokio::runtime::Handle::current();
+            Some(std::thread::spawn(move || {
+                let _g = h.enter();
+                while !stop.load(std::sync::atomic::Ordering::SeqCst) {
+                    std::thread::sleep(std::time::Duration::from_millis(40));
+                    if bg_failed.load(std::sync::atomic::Ordering::SeqCst) {
+                        continue;
+                    }
+                    let Ok(l) = t.verif_layout() else { continue };
+                    let l0 = l.tables.iter().filter(|x| x.level == 0).count();
+                    if l.immutables < mem_stall && l0 < l0_stall {
+                        continue;
+                    }
+                    if let Ok(_one) = MAINT.try_lock() {
+                        mark("P relief.flush");
+                        let mut failed = l.immutables > 0 && t.verif_flush_one().is_err();
+                        for _ in 0..3 {
+                            if failed {
+                                break;
+                            }
+                            failed = t.verif_compact_once().is_err();
+                        }
+                        if failed {
+                            mark("P background.failed");
+                            bg_failed.store(true, std::sync::atomic::Ordering::SeqCst);
+                        }
+                    }
+                }
+            }))
+        } else {
+            None
+        };
         let mut recs: Vec<TxnRec> = vec![];
         for h in handles {
             if let Ok(r) = h.await {
                 recs.extend(r);
             }
+        }
+        relief_stop.store(true, std::sync::atomic::Ordering::SeqCst);
+        if let Some(r) = relief {
+            let _ = r.join();
         }
         // commit order at the public boundary: sequence numbers of the marker keys
         let mut seqs: BTreeMap<u64, u64> = BTreeMap::new();
